@@ -387,10 +387,22 @@ class Prop:
                     rec.append((event.object, event.index, event.removed,
                                 event.added, list(event.object)))
                 observe(tl, expression.list_items(), handler)
+        kept = []      # (step, removed object, added object, their contents when received)
         for i, op in enumerate(trace["ops"]):
             env.begin_op(i, op)
             for _, rec in recs:
+                for (obj, index, removed, added, snap) in rec:
+                    if len(kept) < 64:
+                        kept.append((i - 1, removed, added, list(removed), list(added)))
                 del rec[:]
+            # an event a listener kept must still say what it said when it was delivered
+            for (step, removed, added, r0, a0) in kept:
+                if list(removed) != r0 or list(added) != a0:
+                    raise Violation("C05.event-aliases-list",
+                                    "the event delivered at step %d changed after delivery: "
+                                    "(removed=%r, added=%r) was (removed=%r, added=%r) - its "
+                                    "payload aliases the live list" % (step, list(removed),
+                                                                        list(added), r0, a0), i)
             k = op["k"]
             before = list(m)
             L = len(before)
